@@ -5,11 +5,15 @@ namespace MontePyVerif.C10
 open MontePyVerif MontePyVerif.Wrap
 
 /-- what the proofs need from the tables of the code: every regime leaves room behind the continuation indent
-    and behind the `     $ ` prefix of a continued comment; the default version is in the table. -/
+    and behind the `     $ ` prefix of a continued comment; the default version is in the table; the TextWrapper
+    is configured as the model assumes. -/
 theorem C10_tables :
     (∀ e ∈ Gen.lineLength, Gen.blankSpaceContinue + 2 < e.2) ∧
     (Gen.lineLength.lookup Gen.defaultVersion).isSome = true ∧
-    Gen.textwrapBreakLongWords = true ∧ Gen.textwrapMaxLinesIsNone = true := by decide
+    Gen.textwrapBreakLongWords = true ∧ Gen.textwrapMaxLinesIsNone = true ∧
+    -- the configuration Model/Wrap.lean mirrors (a change of the TextWrapper call re-opens this proof)
+    Gen.wrapDropWhitespace = false ∧ Gen.wrapBreakOnHyphens = false ∧ Gen.wrapBreakLongWords = true ∧
+    Gen.wrapExpandTabs = true ∧ Gen.wrapReplaceWhitespace = true := by decide
 
 /-! ## the greedy-fill invariant of `_wrap_chunks` -/
 
@@ -615,5 +619,120 @@ theorem C10_words (W ni ns : Nat) (text : Str) (h : NoLongChunk W ni ns text) :
 
 /-- non-vacuity of the hypothesis -/
 example : NoLongChunk 80 0 5 "1 0 -1 -2 imp:n=1 be-met.40t".toList := by decide
+
+/-! ## the content clause at full strength, its refutation by the code, and the partial theorem -/
+
+/-- "the words of the wrapped data are the words of the unwrapped data", for every regime of the code's table and
+    every text, with no side condition -/
+def C10_content_statement : Prop :=
+  ∀ e ∈ Gen.lineLength, ∀ text : Str,
+    ((textwrapWrap e.2 [] (blanks Gen.blankSpaceContinue) text).map words).flatten = words (munge text)
+
+def longWordWitness : Str := "1 0 hhhhhhhhhhhhhhhhhhhhhhhhhhhhhhhhhhhhhhhhhhhhhhhhhhhhhhhhhhhhhhhhhhhhhhhhhhhhh".toList
+
+set_option maxRecDepth 4000 in
+theorem longWordWitness_wrapped :
+    textwrapWrap 80 [] (blanks 5) "1 0 hhhhhhhhhhhhhhhhhhhhhhhhhhhhhhhhhhhhhhhhhhhhhhhhhhhhhhhhhhhhhhhhhhhhhhhhhhhhh".toList = ["1 0 ".toList, "     hhhhhhhhhhhhhhhhhhhhhhhhhhhhhhhhhhhhhhhhhhhhhhhhhhhhhhhhhhhhhhhhhhhhhhhhhhh".toList, "     hh".toList] := by
+  simp [textwrapWrap, munge, expandTabs, expandTabsAux, splitChunks, wrapChunks, oneLine, fillLine,
+    finishLine, blanks, isTwWs, Gen.textwrapExpandTabs, Gen.textwrapReplaceWhitespace, Gen.textwrapWhitespaceCodes,
+    Gen.textwrapTabsize]
+
+set_option maxRecDepth 4000 in
+theorem longWordWitness_differs :
+    ((textwrapWrap 80 [] (blanks 5) "1 0 hhhhhhhhhhhhhhhhhhhhhhhhhhhhhhhhhhhhhhhhhhhhhhhhhhhhhhhhhhhhhhhhhhhhhhhhhhhhh".toList).map words).flatten ≠ words (munge "1 0 hhhhhhhhhhhhhhhhhhhhhhhhhhhhhhhhhhhhhhhhhhhhhhhhhhhhhhhhhhhhhhhhhhhhhhhhhhhhh".toList) := by
+  rw [longWordWitness_wrapped]
+  simp [words, wordsAux, munge, expandTabs, expandTabsAux, isTwWs, Gen.textwrapExpandTabs, Gen.textwrapReplaceWhitespace,
+    Gen.textwrapWhitespaceCodes, Gen.textwrapTabsize]
+
+/-- C10_content_refuted — the code refutes the unconditional statement: in the 80-column regime the 77-character
+    word of `1 0 hhh…h` fits on no continuation line (75 columns) and `break_long_words` cuts it in two
+    (known finding C10-F1). -/
+theorem C10_content_refuted : ¬ C10_content_statement := by
+  intro h
+  have h80 : (((6, 1, 0), 80) : (Nat × Nat × Nat) × Nat) ∈ Gen.lineLength := by decide
+  exact longWordWitness_differs (h ((6, 1, 0), 80) h80 longWordWitness)
+
+/-- C10_content_data (the partial theorem) — for every regime of the table and every text without an over-long
+    chunk the words are preserved. -/
+theorem C10_content_data : ∀ e ∈ Gen.lineLength, ∀ text : Str,
+    NoLongChunk e.2 0 Gen.blankSpaceContinue text →
+    ((textwrapWrap e.2 [] (blanks Gen.blankSpaceContinue) text).map words).flatten = words (munge text) := by
+  intro e _ text h
+  have := C10_words e.2 0 Gen.blankSpaceContinue text h
+  simpa [blanks] using this
+
+example : NoLongChunk 80 0 Gen.blankSpaceContinue
+    "mt1 lwtr.20t be-met.40t".toList := by decide
+
+/-! ## indentation of continuation lines; comments stay comments -/
+
+theorem wrapChunks_indent_rest (W : Nat) (init subs : Str) (chunks : List Str) :
+    ∀ l ∈ wrapChunks W init subs false chunks, subs <+: l := by
+  generalize hf : false = first
+  fun_induction wrapChunks W init subs first chunks with
+  | case1 => simp
+  | case2 first c rest indent r hempty ih => exact ih hf
+  | case3 first c rest indent r hne ih =>
+    intro l hl
+    simp only [List.mem_cons] at hl
+    rcases hl with rfl | hl
+    · subst hf
+      simp only [indent]
+      exact List.prefix_append _ _
+    · exact ih rfl l hl
+
+/-- C10_indent — every line `TextWrapper.wrap` produces after the first one starts with the subsequent indent
+    (for MontePy: `BLANK_SPACE_CONTINUE` blanks for data, `     $ ` for a continued `$` comment, `c ` for a continued
+    comment line), for every text and width. -/
+theorem C10_indent (W : Nat) (init subs text : Str) :
+    ∀ l ∈ (textwrapWrap W init subs text).tail, subs <+: l := by
+  unfold textwrapWrap
+  generalize splitChunks (munge text) = chunks
+  generalize ht : true = first
+  fun_induction wrapChunks W init subs first chunks with
+  | case1 => simp
+  | case2 first c rest indent r hempty ih => exact ih ht
+  | case3 first c rest indent r hne ih =>
+    simp only [List.tail_cons]
+    exact wrapChunks_indent_rest W init subs _
+
+theorem commentWithin_blanks (k n : Nat) (c : Char) (rest : Str) (hk : k < n) (hc : c = 'c' ∨ c = 'C') :
+    Spec.Text.commentWithin n (blanks k ++ c :: ' ' :: rest) = true := by
+  induction k generalizing n with
+  | zero =>
+    cases n with
+    | zero => omega
+    | succ m =>
+      simp only [blanks, List.replicate_zero, List.nil_append, Spec.Text.commentWithin]
+      rcases hc with rfl | rfl <;> simp
+  | succ j ih =>
+    cases n with
+    | zero => omega
+    | succ m =>
+      have : blanks (j + 1) ++ c :: ' ' :: rest = ' ' :: (blanks j ++ c :: ' ' :: rest) := by
+        simp [blanks, List.replicate_succ]
+      rw [this]
+      simp only [Spec.Text.commentWithin]
+      simpa using ih m (by omega)
+
+/-- C10_comment_stays_comment — (a) a line that starts with the prefix a wrapped C comment is continued with
+    (fewer than five blanks, `c`/`C`, a blank) is a comment line for MCNP; (b) every continuation line of a wrapped
+    C comment does start with that prefix; (c) a continuation line of a wrapped `$` comment (`     $ …`) carries no
+    data word. -/
+theorem C10_comment_stays_comment :
+    (∀ (k : Nat) (c : Char) (l : Str), k < 5 → (c = 'c' ∨ c = 'C') → (blanks k ++ [c, ' ']) <+: l →
+        Spec.Text.isCommentLine l = true) ∧
+    (∀ (W : Nat) (pre line : Str), ∀ l ∈ (textwrapWrap W [] pre line).tail, pre <+: l) ∧
+    (∀ (l : Str), (blanks 5 ++ ['$', ' ']) <+: l → words (Spec.Text.splitDollar l).1 = []) := by
+  refine ⟨?_, ?_, ?_⟩
+  · intro k c l hk hc ⟨t, ht⟩
+    subst ht
+    have := commentWithin_blanks k 5 c t hk hc
+    simpa [Spec.Text.isCommentLine] using this
+  · intro W pre line
+    exact C10_indent W [] pre line
+  · intro l ⟨t, ht⟩
+    subst ht
+    simp [blanks, Spec.Text.splitDollar, words, wordsAux]
 
 end MontePyVerif.C10
